@@ -222,7 +222,22 @@ func ParseFunction(parameterList, body string) (*ast.FunctionLiteral, error) {
 		return nil, err
 	}
 
-	return program.Body[0].(*ast.ExpressionStatement).Expression.(*ast.FunctionLiteral), nil
+	// The body is spliced into the source text, so it can close the wrapping function
+	// early (e.g. "return 1}), (function(){ 2"); then the program is not the single
+	// function literal expected here.
+	if len(program.Body) != 1 {
+		return nil, errors.New("function body must not end the enclosing function")
+	}
+	statement, ok := program.Body[0].(*ast.ExpressionStatement)
+	if !ok {
+		return nil, errors.New("function body must not end the enclosing function")
+	}
+	function, ok := statement.Expression.(*ast.FunctionLiteral)
+	if !ok {
+		return nil, errors.New("function body must not end the enclosing function")
+	}
+
+	return function, nil
 }
 
 // Scan reads a single token from the source at the current offset, increments the offset and
